@@ -7,6 +7,7 @@ import (
 
 	"voicheck/econst"
 	"voicheck/edt"
+	"voicheck/elin"
 	"voicheck/load"
 	"voicheck/report"
 )
@@ -248,7 +249,7 @@ func c05Specs() []*edt.Spec {
 func init() {
 	Registry["C05"] = func(c *Ctx) {
 		run := c.Run
-		run.Explanation = "DT-S: ScMinimalVartime is decided COMPLETELY by finite abstraction: its paths are extracted (loop unrolled) and every consistent abstract input — the 256 values of byte 31 × the three-way ordering of each little-endian 64-bit word against the corresponding word of L, with word 3 constrained by byte 31 through the numeric value of L — is evaluated on the atoms of the code and must give exactly 'value < L' (and false for any other length). Plus: structure of SetCanonicalBytes, the Montgomery and order constants in both radices against the math/big oracle, and (64-bit back end) interval analysis of the limb arithmetic."
+		run.Explanation = "DT-S: ScMinimalVartime is decided COMPLETELY by finite abstraction: its paths are extracted (loop unrolled) and every consistent abstract input — the 256 values of byte 31 × the three-way ordering of each little-endian 64-bit word against the corresponding word of L, with word 3 constrained by byte 31 through the numeric value of L — is evaluated on the atoms of the code and must give exactly 'value < L' (and false for any other length). Plus: structure of SetCanonicalBytes, the Montgomery and order constants in both radices against the math/big oracle, and the byte<->limb conversions of the scalar back ends as affine identities over the input bits (engine E-LIN: SetBytes uses all 256 bits at their weights, ToBytes is its inverse table, SetBytesWide hands lo + 2^(n·W)·hi = the 512-bit input to the Montgomery multiplications by R and RR)."
 		run.NotDecided = []string{"that Montgomery multiplication/reduction is correct mod L (functional exactness)", "overflow freedom of the 32-bit scalar back end (its Karatsuba form wraps on purpose and cancels algebraically)"}
 		run.Exhaustive = true
 		if !c.Preload(c.Configs()...) {
@@ -268,6 +269,10 @@ func init() {
 				if id == c.Configs()[0] {
 					run.Sample(map[string]any{"function": s.Func, "paths": r.Paths, "classes": r.ClassCount})
 				}
+			}
+			lr := elin.CheckScalarPack(run, p, "LIN")
+			if id == c.Configs()[0] {
+				run.Sample(map[string]any{"config": id, "LIN functions": lr.Functions, "LIN obligations": lr.Obligations})
 			}
 			econst.CheckNamed(run, p, "CONST", "curve/scalar.constL", "curve/scalar.constR", "curve/scalar.constRR", "curve/scalar.constLFACTOR",
 				"curve/scalar.BASEPOINT_ORDER", "curve/scalar.order")
